@@ -22,7 +22,7 @@ def failures(wt):
 
 def main():
     prop, which, name = sys.argv[1:4]
-    wt, out = f"/tmp/s2wt_{prop}", f"/tmp/s2out_{prop}"
+    wt, out = f"/tmp/s2wt_{prop}", os.environ.get("SEED_OUT", f"/tmp/s2out_{prop}")
     assert sh(f"git -C {wt} status --porcelain").stdout.strip() == "", "worktree not pristine"
     diff, demo = f"{out}/{which}.diff", f"{out}/demo_{which}.py"
     env = f"PYTHONPATH={wt}/src"
